@@ -9,6 +9,7 @@ import (
 	"go/types"
 	"os"
 	"path/filepath"
+	"regexp"
 	"sort"
 	"strings"
 
@@ -34,6 +35,7 @@ type Program struct {
 	imports map[string]*types.Package
 	allFns  []*ssa.Function
 	litOf   map[*ssa.Function]ast.Node
+	modSSA  []*ssa.Package
 }
 
 func readContractLines(path string) (lines []string, nos []int, goText []string, err error) {
@@ -71,7 +73,6 @@ func loadProgram(repoDir, pkgPattern, extDir string) (*Program, error) {
 	}
 	// Dependencies come from export data (NeedDeps is required to obtain their types.Package
 	// through the import graph, but without NeedSyntax on them the loader uses export data).
-	cfg.Mode &^= packages.NeedDeps
 	pkgs, err := packages.Load(cfg, pkgPattern)
 	if err != nil {
 		return nil, err
@@ -87,6 +88,13 @@ func loadProgram(repoDir, pkgPattern, extDir string) (*Program, error) {
 	if p0.Module != nil {
 		P.modPath = p0.Module.Path
 	}
+	// in-module dependencies keep their syntax: their function bodies can be executed inline
+	modPkgs := map[*types.Package]*packages.Package{}
+	packages.Visit(pkgs, nil, func(p *packages.Package) {
+		if p != p0 && P.modPath != "" && strings.HasPrefix(p.PkgPath, P.modPath) && p.Types != nil && len(p.Syntax) > 0 {
+			modPkgs[p.Types] = p
+		}
+	})
 	// collect transitive imports
 	P.imports = map[string]*types.Package{}
 	var visit func(tp *types.Package)
@@ -315,8 +323,9 @@ func loadProgram(repoDir, pkgPattern, extDir string) (*Program, error) {
 	}
 	sort.Strings(aliases)
 	hdr.WriteString("import (\n")
+	code := stripCommentsAndStrings(body)
 	for _, a := range aliases {
-		if strings.Contains(body, a+".") {
+		if regexp.MustCompile(`(^|[^A-Za-z0-9_.])` + regexp.QuoteMeta(a) + `\.`).MatchString(code) {
 			fmt.Fprintf(&hdr, "\t%s %q\n", a, cs.imports[a])
 		}
 	}
@@ -377,13 +386,21 @@ func loadProgram(repoDir, pkgPattern, extDir string) (*Program, error) {
 			createDeps(i)
 		}
 		if tp != tpkg {
-			prog.CreatePackage(tp, nil, nil, true)
+			if mp, ok := modPkgs[tp]; ok {
+				sp := prog.CreatePackage(tp, mp.Syntax, mp.TypesInfo, true)
+				P.modSSA = append(P.modSSA, sp)
+			} else {
+				prog.CreatePackage(tp, nil, nil, true)
+			}
 		}
 	}
 	createDeps(tpkg)
 	P.spkg = prog.CreatePackage(tpkg, files, info, true)
 	P.prog = prog
 	P.spkg.Build()
+	for _, sp := range P.modSSA {
+		sp.Build()
+	}
 
 	for fn := range ssautil.AllFunctions(prog) {
 		if fn.Pkg == P.spkg || (fn.Parent() != nil && rootFn(fn).Pkg == P.spkg) {
@@ -594,4 +611,27 @@ func freeIdents(e ast.Expr) []string {
 	}
 	walk(e)
 	return out
+}
+
+func stripCommentsAndStrings(src string) string {
+	var b strings.Builder
+	for _, l := range strings.Split(src, "\n") {
+		i := 0
+		for i < len(l) {
+			c := l[i]
+			if c == '"' || c == '`' {
+				j := skipString(l, i)
+				b.WriteString(" S ")
+				i = j
+				continue
+			}
+			if c == '/' && i+1 < len(l) && l[i+1] == '/' {
+				break
+			}
+			b.WriteByte(c)
+			i++
+		}
+		b.WriteByte('\n')
+	}
+	return b.String()
 }
